@@ -387,12 +387,6 @@ theorem setCode_pushes {db : Db} {s s' : JState} {a : Addr} {hash : Nat}
 
 
 
-/-- the delegation target designated by the code of `a`, as `load_account_delegated` reads it -/
-def delegateOf (db : Db) (s : JState) (a : Addr) : Option Addr :=
-  match loadCode db s a with
-  | some (s1, _) => (s1.state a).bind fun acc => acc.info.code.bind db.delegate
-  | none => none
-
 theorem loadAccountDelegated_pushes {db : Db} {s s' : JState} {a : Addr} {e c : Bool} {d : Option Bool}
     (h : loadAccountDelegated db s a = some (s', e, c, d)) :
     (∃ es, Pushes db s s' es) ∧ c = !(absT db s).warm a ∧
